@@ -20,6 +20,7 @@ type HistResult struct {
 	Class   string // classifier of the violation (known-finding class) if any
 	Final   bool   // do not extend this state further
 	Outcome string // observable outcome class (non-vacuity statistics)
+	Ops     int    // harness-defined: number of crash points the last action offers
 }
 
 type Hist[A any] struct {
@@ -33,6 +34,10 @@ type Hist[A any] struct {
 	// Interesting marks a state as non-trivial for the evidence counters.
 	NonTrivial func(hist []A, r HistResult) bool
 	Render     func(hist []A) interface{}
+	// OnTransition, when set, is called for every enabled, non-violating transition (i.e. once
+	// per (distinct source state, action) pair): harnesses hang leaf enumerations on it
+	// (e.g. all crash points of the last action).
+	OnTransition func(hist []A, r HistResult)
 }
 
 type histNode[A any] struct {
@@ -77,6 +82,9 @@ func (h *Hist[A]) Explore() bool {
 				if r.Viol != "" {
 					h.Rep.Violate(r.Class, r.Viol, render(hist))
 					continue // do not extend a violating path
+				}
+				if h.OnTransition != nil {
+					h.OnTransition(hist, r)
 				}
 				if r.Digest != "" {
 					if seen[r.Digest] {
